@@ -196,18 +196,20 @@ example : varMixed.isWildcard = true ∧ varMixed.mixed = true ∧ varMixed.list
 every namespace: `bind_attrs` stores the attributes of the element verbatim and in order,
 `next_attribute` yields them as `ATTR` events, and the writer puts them on the start tag.
 (Values as in `treeOK`: not of the form `p:local` with `p` declared, not Clark names the writer
-re-encodes.) -/
+re-encodes.  Keys other than the control attributes `xsi:type` / `xsi:nil`, which `bind_attrs`
+keeps out of the map since repair `c01g-07`.) -/
 theorem attributes_roundtrip (e : BEnv) (cfg : ParserConfig) (scfg : SerCfg) (isDt : Str → Bool)
     (m : XmlMeta) (av : XmlVar) (nsmap : NsMap) (host : QN) (kv : QN × Str) (attrs : List (QN × Str))
     (hm : m.attributes = []) (ha : m.anyAttributes = [av]) (hns : av.namespaces = [anyNs])
     (hk : av.isAttribute = false) (hd : keysDistinct (kv :: attrs) = true)
     (hs : ∀ x ∈ kv :: attrs, parseAnyAttribute x.2 nsmap = x.2)
-    (hp : ∀ x ∈ kv :: attrs, plainAttr isDt x = true) :
+    (hp : ∀ x ∈ kv :: attrs, plainAttr isDt x = true)
+    (hx : ∀ x ∈ kv :: attrs, x.1 ≠ xsiType ∧ x.1 ≠ xsiNil) :
     bindAttrs e cfg m (kv :: attrs) nsmap = .ok ([(av.name, .attrs (kv :: attrs))], 0) ∧
     nextAttribute scfg m [(av.name, .attrs (kv :: attrs))] false none = .ok ((kv :: attrs).map attrEv) ∧
     eventsTree isDt ([Ev.start host] ++ (kv :: attrs).map attrEv ++ [Ev.end host])
       = .ok (.node host (kv :: attrs) [] none [] none) :=
-  ⟨bindAttrs_any e cfg m av nsmap hm ha hns kv attrs hd hs,
+  ⟨bindAttrs_any e cfg m av nsmap hm ha hns kv attrs hd hs hx,
    nextAttribute_any scfg m av hm ha hk (kv :: attrs),
    eventsTree_attrs isDt host (kv :: attrs) hd hp⟩
 
@@ -218,7 +220,8 @@ def mAttrs : XmlMeta :=
 example : mAttrs.attributes = [] ∧ mAttrs.anyAttributes = [avAttrs] ∧ avAttrs.namespaces = [anyNs] ∧
     avAttrs.isAttribute = false ∧ keysDistinct [(s "k", s "v"), (s "{urn:x}j", s "a:b")] = true ∧
     (∀ x ∈ [(s "k", s "v"), (s "{urn:x}j", s "a:b")], parseAnyAttribute x.2 nsX = x.2) ∧
-    (∀ x ∈ [(s "k", s "v"), (s "{urn:x}j", s "a:b")], plainAttr isDt0 x = true) := by decide
+    (∀ x ∈ [(s "k", s "v"), (s "{urn:x}j", s "a:b")], plainAttr isDt0 x = true) ∧
+    (∀ x ∈ [(s "k", s "v"), (s "{urn:x}j", s "a:b")], x.1 ≠ xsiType ∧ x.1 ≠ xsiNil) := by decide
 
 /-! ### 3. wildcard namespace constraints -/
 
